@@ -40,6 +40,14 @@ PROPERTY = Property(
                  'I3 in_progress => has_key_ == key supplied, LL_START_ENC_REQ not yet sent; I4 sent => supplied. Inv is checked after construction and after every step.',
                  'key data base (security manager find_key) and radio (setup_encryption) are stubs answering with symbolic values',
                  'the transmit ring is empty when security PDUs are sent'],
-    explanation='',
-    outside=[],
+    explanation='The encryption procedure state (has_key_, encryption_in_progress_, is_encrypted) is symbolic together with a ghost state that records what the statement talks about '
+                '(key supplied for the last LL_ENC_REQ, LL_START_ENC_REQ sent since, encrypted state entered legitimately). From every state satisfying the invariant one step is executed: '
+                'any received control PDU, sending of the pending security PDU, local disconnect, supervision timeout. Asserted: the link is reported encrypted only if it was entered by '
+                'LL_START_ENC_RSP while a key was supplied and LL_START_ENC_REQ had been sent; the key looked up is the one for the EDIV/Rand of the request and the radio gets exactly that key; '
+                'unknown key => reject with 0x06 and no encryption; pause and disconnect => unencrypted and no procedure state survives; the invariant is re-established. '
+                'Base case after construction. By induction the statement holds for every sequence of control PDUs and event boundaries.',
+    outside=['ATT traffic between the control PDUs: is_encrypted( bool ) is only called from handle_encryption_pdus and reset_encryption (read in the source), L2CAP input is not executed in the harness',
+             'the real security managers find_key (C33); only the link layer side with a symbolic key data base',
+             'new connection via adv_received() (connection_data_ is re-constructed: unencrypted); covered only through the disconnect steps that precede it',
+             'a transmit ring without room (transmit_pending_security_pdus then retries at the next event)'],
 )
